@@ -179,7 +179,9 @@ pub fn exec(case: &Value) -> Value {
             o["inv"] = json!((0..3).map(|i| (0..4).map(|j| if j < 3 { s0(inv.0[i][j] / u) } else { s0(inv.0[i][j]) }).collect::<Vec<_>>()).collect::<Vec<_>>());
             let unscaled = |m: &M4| -> Vec<Vec<i64>> { (0..3).map(|i| (0..4).map(|j| s0(m.0[i][j])).collect()).collect() };
             o["invm"] = json!(unscaled(&inv.compose(&m)));
-            o["minv"] = json!(unscaled(&m.compose(&inv)));
+            // (the translation column of m o inv lives in the units of m's target space: scaled back like m's)
+            let mi = m.compose(&inv);
+            o["minv"] = json!((0..3).map(|i| (0..4).map(|j| if j < 3 { s0(mi.0[i][j]) } else { s0(mi.0[i][j] * u) }).collect::<Vec<_>>()).collect::<Vec<_>>());
             let tr = m.transpose();
             o["tr"] = json!((0..3).map(|i| (0..3).map(|j| s(tr.0[i][j])).collect::<Vec<_>>()).collect::<Vec<_>>());
         }
@@ -244,6 +246,6 @@ pub fn gen(args: &Args, out: &mut dyn Write) {
         let path: Vec<Value> = (0..len)
             .map(|_| json!([if rot { *rng.pick(&[5i64, 6, 7, 8, 17, 18, 19]) } else { rng.range(1, 20) }, if rng.chance(1, 2) { "L" } else { "R" }]))
             .collect();
-        writeln!(out, "{}", json!({"k": format!("m{}-{}", args.seed, i), "path": path, "gs": if i % 3 == 2 { 7 } else { 0 }})).unwrap();
+        writeln!(out, "{}", json!({"k": format!("m{}-{}", args.seed, i), "path": path, "gs": if i % 3 == 2 { 7 } else if i % 3 == 1 && i % 2 == 0 { -25 } else { 0 }})).unwrap();
     }
 }
